@@ -27,6 +27,8 @@ TFrame == /\ Ev.e = "Frame" /\ Ev.pass = 1 /\ net.ok
           /\ Clause("frames-in-order", Ev.t = nfr)
           /\ LET r == Step(net.N, net.ix, sc, Ev.sen) IN sc' = TLCEval(r.sc) /\ ent' = r.ent
           /\ nfr' = nfr + 1 /\ UNCHANGED net
+RECURSIVE SumProb(_, _)
+SumProb(sg, n) == IF n = 0 THEN 0 ELSE SumProb(sg, n - 1) + sg[n].prob
 TResult == /\ Ev.e = "Result"
            /\ IF ~Ev.final \/ ~net.ok \/ nfr = 0 THEN TRUE
               ELSE LET opt == Opt(net.N, net.ix, ent)
@@ -35,11 +37,14 @@ TResult == /\ Ev.e = "Result"
                        \* ALL frames and is not compared
                        timed == SelectSeq(Ev.segs, LAMBDA x : x.k # 2)
                        covers == timed # <<>> /\ timed[Len(timed)].ef = nfr - 1
+                       \* a result without real words has no hypothesis string and so no score from decoder_hyp
+                       \* (the driver records 0): its path score is the sum over its segmentation
+                       reported == IF Ev.hypnull THEN SumProb(Ev.segs, Len(Ev.segs)) ELSE Ev.score
                    IN /\ Clause("all-frames-recorded", Ev.scored = nfr)
                       /\ IF net.open
                          THEN /\ Clause("open-beam-finds-a-path-iff-one-exists", Ev.hypnull = (opt <= NEG) \/ Ev.segsnull = (opt <= NEG))
-                              /\ Clause("open-beam-score-is-optimum", Ev.segsnull \/ Ev.score = opt)
-                         ELSE Clause("pruned-score-at-most-optimum", Ev.segsnull \/ ~covers \/ Ev.score <= opt)
+                              /\ Clause("open-beam-score-is-optimum", Ev.segsnull \/ reported = opt)
+                         ELSE Clause("pruned-score-at-most-optimum", Ev.segsnull \/ ~covers \/ reported <= opt)
            /\ UNCHANGED <<net, sc, ent, nfr>>
 TOther == Ev.e \in {"Header", "Grammar", "Start", "Feed", "End", "Mark"} /\ UNCHANGED <<net, sc, ent, nfr>>
 TNext == /\ l <= Len(JTrace)
